@@ -119,6 +119,20 @@ def path_reversed(c, kinds):
     c.ensures('start/end-swapped', ops.And(ops.eq(c.get(rev, 'start'), pts[-1][-1]), ops.eq(c.get(rev, 'end'), pts[0][0])))
 
 
+@contract('C09', 'path.Path.reversed', params=[{'kinds': k, '_no_bounded': True} for k in ['LQ', 'QLC', 'CCL']], level='per-shape')
+def path_reversed_of_a_path_with_warm_caches_is_a_consistent_path(c, kinds):
+    """the copy is a Path in a consistent state whatever was queried on the original before:
+    if it carries cached length fractions at all, they are those of ITS segments in ITS order
+    (so that point(T), T2t, length(T0,T1), cropped on the copy are right)"""
+    from contracts.c16 import check_inv
+    path, segs, pts = mkpath(c, kinds)
+    c.callm(path, '_calc_lengths')              # what any length()/point(T)/T2t query does first
+    rev = c.callm(path, 'reversed')
+    cur = list(c.get(rev, '_segments'))
+    check_inv(c, rev, cur, 'reversed()')
+    c.ensures('original-untouched', all(a is b for a, b in zip(list(c.get(path, '_segments')), segs)) and len(list(c.get(path, '_segments'))) == len(segs))
+
+
 def _polyline(c, n, closed):
     """continuous polyline; segment lengths enter through the call-site contract of Line.length
     (C06): positive numbers"""
